@@ -141,9 +141,7 @@ func (a *c05Asm) assemble(tag string, cases []*c05Case) error {
 		if len(bad) == 0 {
 			// no position: bisect
 			if len(alive) == 1 {
-				alive[0].status = "rejected"
-				alive[0].errmsg = c05CleanMsg(c05FirstLine(string(out)))
-				return nil
+				return a.single(tag+"_s", alive[0])
 			}
 			a.mu.Lock()
 			a.bisects++
@@ -154,11 +152,14 @@ func (a *c05Asm) assemble(tag string, cases []*c05Case) error {
 			}
 			return a.assemble(tag+"b", alive[h:])
 		}
+		// The position the assembler prints is not always the culprit's (an undefined label is
+		// reported again at every later jump): every suspect is assembled once more on its own.
 		var next []*c05Case
-		for _, c := range alive {
-			if msg, isBad := bad[c]; isBad {
-				c.status = "rejected"
-				c.errmsg = msg
+		for k, c := range alive {
+			if _, isBad := bad[c]; isBad {
+				if err := a.single(fmt.Sprintf("%s_%d_s%d", tag, attempt, k), c); err != nil {
+					return err
+				}
 			} else {
 				next = append(next, c)
 			}
@@ -168,6 +169,31 @@ func (a *c05Asm) assemble(tag string, cases []*c05Case) error {
 	if len(alive) > 0 {
 		return fmt.Errorf("assembler still failing after 40 attempts (%s)", tag)
 	}
+	return nil
+}
+
+// single assembles one instruction on its own: accepted (machine code read back) or rejected with the assembler's message.
+func (a *c05Asm) single(tag string, c *c05Case) error {
+	text, _, err := c05Print([]*c05Case{c})
+	if err != nil {
+		return err
+	}
+	base := filepath.Join(a.dir, tag)
+	if err := os.WriteFile(base+".s", text, 0o644); err != nil {
+		return err
+	}
+	cmd := exec.Command("go", "tool", "asm", "-I", filepath.Join(a.goroot, "pkg", "include"), "-p", "p", "-o", base+".o", base+".s")
+	cmd.Env = envForGo()
+	out, runErr := cmd.CombinedOutput()
+	a.mu.Lock()
+	a.runs++
+	a.mu.Unlock()
+	os.Remove(base + ".s")
+	if runErr == nil {
+		return a.readback(base, []*c05Case{c})
+	}
+	c.status = "rejected"
+	c.errmsg = c05CleanMsg(c05FirstLine(string(out)))
 	return nil
 }
 
